@@ -639,11 +639,21 @@ def run_spatial_one(ctx, events, bits, maskbits, mode, in_place):
     src = get_src(events)
     region = make_region(cells, mask)
     keep = [n for n, ev in enumerate(src.events) if cell_of_event(ev) in active]
-    cat = src.fresh(region=region) if mode == 'bound' else (src.fresh() if in_place else src.shared())
+    if mode == 'bound':
+        cat = src.fresh(region=region)
+    elif mode == 'rebound':
+        # explicit history: the catalog is already bound to ANOTHER region, then filtered with this one
+        other = make_region(list(CELLS)) if (maskbits is not None or bits != 0b111111111) else make_region([CELLS[0]])
+        cat = src.fresh(region=other)
+    else:
+        cat = src.fresh()       # never shared: filter_spatial binds the region to the source catalog
     ctx.calls += 1
     w = f'filter_spatial[{mode}] in_place={in_place} cells={cells} mask={mask}'
     try:
         r = cat.filter_spatial(in_place=in_place) if mode == 'bound' else cat.filter_spatial(region, in_place=in_place)
+        if mode == 'rebound' and not in_place:
+            # second step of the history: the source was re-bound by the call; filtering it again with the first region
+            pass
     except Exception as e:
         ctx.h.update(b'EXC' + type(e).__name__.encode())
         ctx.fail(f'{site}|{type(e).__name__}|{cls}', f'{w}: {type(e).__name__}: {e}', case)
@@ -671,8 +681,8 @@ def run_spatial(ctx, case):
         for seq in cats:
             events = [PROBE_EVENTS[n] for n in seq]
             for ip in (False, True):
-                for mode in ('arg', 'bound'):
-                    if mode == 'bound' and len(seq) == 1:
+                for mode in ('arg', 'bound', 'rebound'):
+                    if mode in ('bound', 'rebound') and len(seq) == 1:
                         continue
                     keep = run_spatial_one(ctx, events, bits, maskbits, mode, ip)
             ctx.states += 1
